@@ -85,3 +85,8 @@ pub fn reset() {
 pub fn peak() -> usize {
     PEAK.try_with(|p| p.get().max(0) as usize).unwrap_or(0)
 }
+
+/// Bytes this thread has allocated and not freed since the last `reset()` (frees by other threads are not seen).
+pub fn live() -> usize {
+    LIVE.try_with(|l| l.get().max(0) as usize).unwrap_or(0)
+}
